@@ -55,6 +55,16 @@ class RunTimeout(BaseException):
     """Wall-clock backstop fired inside a run: the library did not return."""
 
 
+def run_timeout(world, leg=None):
+    """Wall-clock backstop per run (a hang is reported as no-result/timeout): the world's own figure - at least
+    100x the slowest legitimate run - unless VERIF_RUN_TIMEOUT_S overrides it."""
+    if os.environ.get('VERIF_RUN_TIMEOUT_S'):
+        return RUN_TIMEOUT_S
+    if leg is not None and hasattr(world, 'run_timeout_for'):
+        return int(world.run_timeout_for(leg))
+    return int(getattr(world, 'run_timeout', RUN_TIMEOUT_S))
+
+
 def run_seed(verif_seed, world, leg, run_index):
     h = hashlib.sha256(('%d/%s/%s/%d' % (verif_seed, world, leg, run_index)).encode()).digest()
     return int.from_bytes(h[:8], 'big')
@@ -227,7 +237,7 @@ def execute(world, leg, run_index, verif_seed, known):
     ctx = Ctx(world.prop, world.tier, leg, cfg, rng, known)
     viol = None
     old = signal.signal(signal.SIGALRM, _alarm)
-    signal.alarm(RUN_TIMEOUT_S)
+    signal.alarm(run_timeout(world, leg))
     try:
         world.run(ctx)
     except Violation as v:
@@ -236,7 +246,7 @@ def execute(world, leg, run_index, verif_seed, known):
         viol = v.to_json()
     except RunTimeout:
         viol = {'signature': '%s/no-result/timeout/%s' % (world.prop, ctx.kinds[-1] if ctx.kinds else 'start'),
-                'step': len(ctx.ops) - 1, 'message': 'library call did not return within %d s' % RUN_TIMEOUT_S}
+                'step': len(ctx.ops) - 1, 'message': 'library call did not return within %d s' % run_timeout(world, leg)}
     finally:
         signal.alarm(0)
         signal.signal(signal.SIGALRM, old)
@@ -257,7 +267,7 @@ def replay_ops(world, leg, cfg, ops, strict=True, known=()):
     """Execute a recorded list (no PRNG).  Returns violation json or None."""
     ctx = Ctx(world.prop, world.tier, leg, cfg, None, known, strict)
     old = signal.signal(signal.SIGALRM, _alarm)
-    signal.alarm(RUN_TIMEOUT_S)
+    signal.alarm(run_timeout(world, leg))
     try:
         world.replay(ctx, ops)
     except Violation as v:
@@ -266,7 +276,7 @@ def replay_ops(world, leg, cfg, ops, strict=True, known=()):
         return v.to_json()
     except RunTimeout:
         return {'signature': '%s/no-result/timeout/%s' % (world.prop, ctx.kinds[-1] if ctx.kinds else 'start'),
-                'step': len(ctx.ops) - 1, 'message': 'library call did not return within %d s' % RUN_TIMEOUT_S}
+                'step': len(ctx.ops) - 1, 'message': 'library call did not return within %d s' % run_timeout(world, leg)}
     finally:
         signal.alarm(0)
         signal.signal(signal.SIGALRM, old)
@@ -458,12 +468,17 @@ def _chunk_body(args):
     faulthandler.dump_traceback_later(chunk_timeout, exit=True)
     try:
         out = []
+        hangs = 0
         for k, i in enumerate(indices):
             try:
                 r = execute(_WORLD, leg, i, _SEED, _KNOWN)
                 if r.get('violation'):
                     r['chunk_prefix'] = list(indices[:k])
+                    if '/no-result/timeout/' in r['violation']['signature']:
+                        hangs += 1
                 out.append(r)
+                if hangs >= 2:
+                    break   # the library hangs on this tree: the rest of the chunk would only burn the wall backstop
             except Exception:
                 out.append({'leg': leg, 'run_index': i, 'harness_error': traceback.format_exc()})
         return out
@@ -512,7 +527,7 @@ def run_batch(world, verif_seed, workers, budget_s, known, max_runs=None, only_l
             n = min(n, max_runs)
         per = max(1, min(getattr(world, 'chunk', 25), (n + 63) // 64))   # independent of the worker count
         for s in range(0, n, per):
-            plan.append((leg, list(range(s, min(n, s + per))), RUN_TIMEOUT_S * per + 120))
+            plan.append((leg, list(range(s, min(n, s + per))), run_timeout(world, leg) * per + 120))
     results = []
     skipped = 0
     n_viol = 0   # once enough failing runs exist, no further chunks are started (a failing tree need not be explored to the end)
